@@ -410,14 +410,14 @@ def replay_direct(blob):
 
 
 HARNESSES = [
-    H("dsu_step", h_dsu_step, quick=[dict(n=k, op=o) for k in (2, 3, 4) for o in ("union", "find", "same")], thorough=[dict(n=k, op=o) for k in (2, 3, 4) for o in ("union", "find", "same")], functions=FUNCTIONS,
-      bounds="n<=4 elements; every valid parent-pointer forest, ranks symbolic integers under the invariant; arguments symbolic", validate=True),
+    H("dsu_step", h_dsu_step, quick=[dict(n=k, op=o) for k in (2, 3, 4) for o in ("union", "find", "same")], thorough=[dict(n=k, op=o) for k in (2, 3, 4) for o in ("union", "find", "same")] + [dict(n=5, op="find"), dict(n=5, op="same")], functions=FUNCTIONS,
+      bounds="n<=4 elements (thorough: n=5 for find / is_same_set); every valid parent-pointer forest, ranks symbolic integers under the invariant; arguments symbolic", validate=True),
     H("dsu_history", h_dsu_history, quick=[dict(n=3, k=3), dict(n=4, k=2)], thorough=[dict(n=3, k=3), dict(n=4, k=2)], functions=FUNCTIONS,
       bounds="every sequence of k<=3 (n=3) / 2 (n=4) operations (quick), k<=3 (n=4) (thorough) from the initial state"),
     H("dsu_validate", h_dsu_validate, quick=[dict(n=3)], thorough=[dict(n=3), dict(n=4)], functions=FUNCTIONS, bounds="arguments in [-2, n+1]"),
     H("checkers", h_checkers, quick=[dict(n=k, base=b, order=o) for k in (1, 2, 3) for b in _B for o in ("id", "rev")] + [dict(n=4, base=0, order="id"), dict(n=4, base=5, order="rev")],
-      thorough=[dict(n=k, base=b, order=o) for k in (1, 2, 3) for b in _B for o in ("id", "rev")] + [dict(n=4, base=0, order="id"), dict(n=4, base=5, order="rev"), dict(n=4, base=1, order="id")], functions=FUNCTIONS,
-      bounds="EVERY function {0..n-1} -> {none}+{0..n-1} (forests, cycles, self-loops) for n<=4; id base 0/1/5; rows in id or reverse order"),
+      thorough=[dict(n=k, base=b, order=o) for k in (1, 2, 3) for b in _B for o in ("id", "rev")] + [dict(n=4, base=0, order="id"), dict(n=4, base=5, order="rev"), dict(n=4, base=1, order="id"), dict(n=5, base=0, order="id")], functions=FUNCTIONS,
+      bounds="EVERY function {0..n-1} -> {none}+{0..n-1} (forests, cycles, self-loops) for n<=4 (quick) / 5 with id base 0 (thorough); id base 0/1/5; rows in id or reverse order"),
     H("repair_frame", h_repair_frame, quick=[dict(n=3, base=b, mode=m) for b in (0, 5) for m in ("somas", "nearest")] + [dict(n=4, base=1, mode="somas")],
       thorough=[dict(n=3, base=b, mode=m) for b in (0, 5) for m in ("somas", "nearest")] + [dict(n=4, base=1, mode="somas")], functions=FUNCTIONS,
       bounds="every forest with >=2 roots on n<=3-4 rows (first root anywhere), symbolic real coordinates, in-place and copying forms"),
